@@ -10,12 +10,16 @@
      MSend          send_data_raw, then the notified transmit
      MPkt chunks    handle_packet (chunk handlers in order), the post-packet transmit, then the
                     notified transmit if a handler stored a permit
-     MWake hb       the sleep branch: maybe_send_tlp_probe, handle_timeout, heartbeat if `hb`, the
-                    notified transmit, and the probe check at the top of the loop; whether
-                    handle_timeout found an expired record and whether the probe time-out had
-                    elapsed are not observable in advance: the four alternatives are tried and the
-                    first reproducing the observed packets of this wake-up is taken (no match =
-                    disagreement) *)
+     MSilence       a phase in which the harness only listens.  Each timer wake-up of run_loop is
+                    the sleep branch (maybe_send_tlp_probe, handle_timeout, heartbeat), the notified
+                    transmit and the probe check at the top of the loop.  Which timers had expired
+                    at a wake-up (T3? heartbeat? probe time-out at the loop top?) is decided by
+                    std::time::Instant and is not part of the case: the model searches for a
+                    sequence of wake-ups (each one of the 8 alternatives, each emitting at least one
+                    packet) whose concatenated packets are exactly the packets observed during the
+                    phase, with backtracking; no such sequence = disagreement.  The grouping of
+                    the observed packets into bursts plays no role (two wake-ups a few ms apart, or
+                    one wake-up whose packets arrive spread out, are matched all the same) *)
 From Coq Require Import ZArith List Bool.
 From RV Require Import Lib.Wrap Gen.Consts Gen.SctpSendGen Model.SctpSend Model.SctpSendSm.
 Import ListNotations.
@@ -43,7 +47,7 @@ Inductive ichunk : Set :=
 Inductive mop : Set :=
 | MSend (sid ppid : Z) (p : pay)
 | MPkt (chunks : list ichunk)
-| MWake (hb : bool).
+| MSilence.            (* a silence phase: timer wake-ups only *)
 
 (* observed chunk *)
 Inductive ochunk : Set :=
@@ -146,19 +150,72 @@ Definition strip_empty (p : opkt) : opkt :=
 Definition is_hback_pkt (p : opkt) : bool :=
   match snd p with [OHbAck _] => true | _ => false end.
 
+(* ---------------------------------------------------------------- silence phases: search for the wake-ups *)
+(* (t3, hb, top) alternatives of one wake-up, the most frequent first *)
+Definition wake_cands : list (bool * bool * bool) :=
+  [(false, false, false); (true, false, false); (false, false, true); (true, false, true);
+   (false, true, false); (true, true, false); (false, true, true); (true, true, true)].
+
+(* Some rest: b = a ++ rest *)
+Fixpoint strip_prefix (a b : list opkt) : option (list opkt) :=
+  match a, b with
+  | [], _ => Some b
+  | x :: a', y :: b' => if opkt_eqb x y then strip_prefix a' b' else None
+  | _ :: _, [] => None
+  end.
+Definition canon (out : list packet) : list opkt := map (fun p => strip_empty (to_opkt p)) out.
+
+(* wake-ups that emit nothing change nothing (handle_tlp / handle_t3 / heartbeat each emit when they act);
+   the last wake-up may be cut short by the end of the phase (its remaining packets are then read by
+   the next operation; the overall comparison is on the flattened packet sequence) *)
+Fixpoint wake_search (cut : bool) (fuel : nat) (c : cfg) (s : st) (rem : list opkt) : option (st * list packet) :=
+  match rem with
+  | [] => Some (s, [])
+  | _ =>
+      match fuel with
+      | O => None
+      | S f =>
+          (fix try (cands : list (bool * bool * bool)) : option (st * list packet) :=
+             match cands with
+             | [] => None
+             | (t3, hb, top) :: cs =>
+                 let '(s', out) := do_wake c s t3 hb top in
+                 let o := canon out in
+                 match o with
+                 | [] => try cs
+                 | _ =>
+                     match strip_prefix o rem with
+                     | Some rem' =>
+                         match wake_search cut f c s' rem' with
+                         | Some (s2, out2) => Some (s2, out ++ out2)
+                         | None => try cs
+                         end
+                     | None =>
+                         if cut then
+                           match strip_prefix rem o with
+                           | Some _ => Some (s', out)
+                           | None => try cs
+                           end
+                         else try cs
+                     end
+                 end
+             end) wake_cands
+      end
+  end.
+
 (* ---------------------------------------------------------------- running a case *)
 Definition do_mop (c : cfg) (s : st) (m : mop) (obs : list opkt) : st * list packet :=
   match m with
   | MSend sid ppid p => settle c (enqueue c s sid ppid (pay_bytes p))
   | MPkt chunks => do_pkt c s chunks
-  | MWake hb =>
-      let matches a := list_eqb opkt_eqb (map (fun p => strip_empty (to_opkt p)) (snd a)) obs in
-      let a := do_wake c s false hb false in
-      if matches a then a else
-      let a := do_wake c s true hb false in
-      if matches a then a else
-      let a := do_wake c s false hb true in
-      if matches a then a else do_wake c s true hb true
+  | MSilence =>
+      match wake_search false (S (length obs)) c s obs with
+      | Some r => r
+      | None => match wake_search true (S (length obs)) c s obs with
+                | Some r => r
+                | None => (s, [])
+                end
+      end
   end.
 
 Fixpoint run_mops (c : cfg) (s : st) (ms : list mop) (obs : list (list opkt)) : st * list (list packet) :=
